@@ -4,8 +4,8 @@
    to the Rust functions changes the translation; if it changes their meaning, one of these
    proofs fails. *)
 From Coq Require Import NArith List Bool Lia.
-From AV Require Import Generated.Table Model.Base Model.Utf8parse Model.Parser Generated.ParserFn Proofs.ParserGen
-  Model.Imp Model.Strip Generated.StripFn.
+From AV Require Import Generated.Table Spec.Utf8 Spec.Strip Model.Base Model.Utf8parse Model.Parser
+  Model.Imp Model.Strip Generated.StripFn Proofs.StripMachine Proofs.StripSim Proofs.StripStr.
 Import ListNotations.
 Local Open Scope N_scope.
 
@@ -93,6 +93,22 @@ Qed.
 
 (* ---- the small functions --------------------------------------------------------------- *)
 
+Lemma gs_state_change__eq s b : gs_state_change_ s b = state_change_ s b.
+Proof.
+  unfold gs_state_change_, state_change_.
+  destruct (aget state_changes (state_disc s)); try reflexivity.
+  destruct (aget l b); reflexivity.
+Qed.
+
+Lemma gs_state_change_eq s b : gs_state_change s b = state_change s b.
+Proof.
+  unfold gs_state_change, state_change. rewrite !gs_state_change__eq.
+  destruct (state_change_ Anywhere b) as [c0|]; try reflexivity.
+  destruct (c0 =? 0).
+  - destruct (state_change_ s b); try reflexivity. destruct (unpack n); reflexivity.
+  - destruct (unpack c0); reflexivity.
+Qed.
+
 Lemma ws_eq b : Imp.is_ascii_whitespace b = Strip.is_ascii_whitespace b.
 Proof.
   unfold Imp.is_ascii_whitespace, Strip.is_ascii_whitespace.
@@ -155,14 +171,14 @@ Lemma g_next_str_eq bs off st : g_next_str bs st = str_result (next_str bs off s
 Proof.
   unfold g_next_str, next_str. rewrite position_scan, ns_skip_scan.
   match goal with |- context [scan ?f bs st] => rewrite (scan_ext f ns_skip_step) end.
-  2:{ intros b s. unfold ns_skip_step. rewrite g_state_change_eq.
+  2:{ intros b s. unfold ns_skip_step. rewrite gs_state_change_eq.
       destruct (state_change s b) as [[ns a]|]; [|reflexivity].
       rewrite g_is_printable_bytes_eq. destruct (negb (state_eqb ns Anywhere) && negb (state_eqb ns Utf8)); reflexivity. }
   destruct (scan ns_skip_step bs st) as [[[st1 a1] bs1]|] eqn:E1; [|reflexivity].
   cbv zeta. cbn [fst snd]. rewrite (scan_split _ _ _ _ _ _ E1), split_found.
   rewrite position_scan, ns_take_scan.
   match goal with |- context [scan ?f bs1 tt] => rewrite (scan_ext f (ns_take_step st1)) end.
-  2:{ intros b []. unfold ns_take_step. rewrite g_state_change_eq.
+  2:{ intros b []. unfold ns_take_step. rewrite gs_state_change_eq.
       destruct (state_change st1 b) as [[ns a]|]; [|reflexivity].
       rewrite g_is_printable_bytes_eq, g_is_utf8_continuation_eq. reflexivity. }
   destruct (scan (ns_take_step st1) bs1 tt) as [[[[] t] bs2]|] eqn:E2; [|reflexivity].
@@ -229,7 +245,7 @@ Definition bytes_result (r : option (option piece * list N * N * state * u8parse
   match r with Some (p, bs2, _, st, u) => Some (bs2, st, u, option_map p_bytes p) | None => None end.
 
 Ltac sc_cases :=
-  rewrite g_state_change_eq;
+  rewrite gs_state_change_eq;
   match goal with |- context [state_change ?s0 ?b0] => destruct (state_change s0 b0) as [[ns a]|]; [|reflexivity] end;
   rewrite g_is_printable_bytes_eq.
 
@@ -445,4 +461,42 @@ Proof.
   unfold strip_next_bytes. rewrite (bytes_drain_eq _ _ 0). cbn [bi_bytes bi_state bi_utf8].
   destruct (bytes_iter (S (length c)) c 0 st u) as [[[[ps bs'] st'] u']|]; [|reflexivity].
   cbn [bi_state bi_utf8]. rewrite IH. destruct (strip_bytes_chunks rest st' u') as [[[pss st''] u'']|]; reflexivity.
+Qed.
+
+(* ---- hence the translated code refines the specification ------------------------------- *)
+
+Theorem translated_strip_bytes_refines_spec input :
+  bytes_ok input -> g_stripped_bytes_into_vec (g_strip_bytes input) = Some (spec_strip input).
+Proof. intros H. rewrite g_strip_bytes_into_vec_is_model. apply strip_bytes_is_spec, H. Qed.
+
+Theorem translated_strip_str_refines_spec input :
+  bytes_ok input -> valid_utf8 input = true -> g_strip_str_to_string input = Some (spec_strip input).
+Proof. intros H V. rewrite g_strip_str_to_string_is_model. apply strip_str_is_spec; assumption. Qed.
+
+Lemma concat_pieces (pss : list (list piece)) :
+  concat (map (@concat N) (map (map p_bytes) pss)) = concat (map (fun ps => concat (map p_bytes ps)) pss).
+Proof. rewrite map_map. reflexivity. Qed.
+
+Theorem translated_bytes_chunks_refine_spec chunks :
+  bytes_ok (concat chunks) ->
+  exists pss st u,
+    g_bytes_chunks chunks Ground u8_new = Some (pss, st, u) /\
+    concat (map (@concat N) pss) = spec_strip (concat chunks) /\
+    Some (concat (map (@concat N) pss)) = g_stripped_bytes_into_vec (g_strip_bytes (concat chunks)).
+Proof.
+  intros H. destruct (strip_bytes_chunked chunks H) as (pss & st & u & E & Hs & Hm & _).
+  exists (map (map p_bytes) pss), st, u. rewrite g_bytes_chunks_is_model, E, concat_pieces, g_strip_bytes_into_vec_is_model.
+  repeat split; assumption.
+Qed.
+
+Theorem translated_str_chunks_refine_spec chunks :
+  bytes_ok (concat chunks) -> Forall (fun c => valid_utf8 c = true) chunks ->
+  exists pss st,
+    g_str_chunks chunks Ground = Some (pss, st) /\
+    concat (map (@concat N) pss) = spec_strip (concat chunks) /\
+    Some (concat (map (@concat N) pss)) = g_strip_str_to_string (concat chunks).
+Proof.
+  intros H V. destruct (strip_str_chunked chunks H V) as (pss & st & E & Hs & Hm).
+  exists (map (map p_bytes) pss), st. rewrite g_str_chunks_is_model, E, concat_pieces, g_strip_str_to_string_is_model.
+  repeat split; assumption.
 Qed.
